@@ -15,7 +15,8 @@ UNOPS = ["-", "!", "~", "*", "&", "++", "--"]
 
 
 class Gen:
-    def __init__(self, rng, lang="C", depth=3, comments=True, preproc=True, stats=None):
+    def __init__(self, rng, lang="C", depth=3, comments=True, preproc=True, stats=None, cmt_prob=0.12):
+        self.cmt_prob = cmt_prob
         self.r = rng
         self.lang = lang
         self.maxdepth = depth
@@ -113,7 +114,7 @@ class Gen:
 
     def comment_line(self, depth):
         r = self.r
-        if not self.comments or r.random() > 0.12:
+        if not self.comments or r.random() > self.cmt_prob:
             return
         k = r.random()
         if k < 0.08:
